@@ -43,7 +43,9 @@ RULE = ('cases from one PRNG: (00) "build": ROADM chains whose multiband element
         'supplied in random order, through both constructors; (b) "bands": a valid spectrum against 1-4 random bands '
         '(edges on slot edges, inside slots, disjoint or overlapping), demux per band and mux of the parts in random order; '
         '(c) "common": find_common_range on 0-5 amplifiers with 1-3 bands each (unsorted, duplicates, touching, nested, '
-        'with/without spacing) probed with channels on every produced and given band edge; (d) "path": request.propagate on '
+        'with/without spacing) probed with channels on every produced and given band edge; (d) "path": request.propagate on auto-designed C+L chains without '
+        'declared amplifiers (ROADMs with full-L or reduced-L design bands and booster restrictions: auto-inserted multiband '
+        'amplifiers of two band sets in one network, carriers in the difference of the sets) and on '
         'designed ROADM chains whose hops are single-band (C, reduced C, L) or multi-band (4 stock multiband varieties) '
         'and on the shipped multiband / mesh examples, carriers over C+L incl. edge-aligned ones (slot edge exactly on a '
         'common-range edge, or 6.25 GHz beyond), in band gaps and outside, run a second time with shuffled launch order; '
@@ -238,7 +240,16 @@ def _hops(rng, tier, allow_empty_common=False):
 
 def gen_path(rng, tier):
     k = rng.random()
-    if k < 0.75:
+    if k < 0.12:
+        # auto-designed C+L chain: no amplifier in the topology, ROADMs with different design bands / booster restrictions, so
+        # auto-inserted multiband amplifiers of two different band sets coexist (either one may be designed last)
+        kinds = [rng.choice(['wide', 'reduced']) for _ in range(3)]
+        if len(set(kinds)) == 1:
+            kinds[rng.randrange(3)] = 'reduced' if kinds[0] == 'wide' else 'wide'
+        net = {'auto': kinds}
+        a, b = rng.sample(range(3), 2)
+        src, dst = f'trx {a}', f'trx {b}'
+    elif k < 0.75:
         net = {'hops': _hops(rng, tier)}
         n = len(net['hops']) + 1
         a, b = rng.sample(range(n), 2)
@@ -282,6 +293,9 @@ def _net_of(case):
         if b >= a:
             b += 1
         return eq, net, trx[a], trx[b]
+    if 'auto' in case['net']:
+        eq, net = S.auto_mb_net(tuple(case['net']['auto']))
+        return eq, net, case['src'], case['dst']
     eq, net = chain_net(case['net']['hops'])
     return eq, net, case.get('src', 'trx 0'), case.get('dst', f'trx {len(case["net"]["hops"])}')
 
@@ -336,6 +350,9 @@ def _path_carriers(case, path, eq):
             fixed.append({'f': f, 'slot': slot, 'baud': rng.choice([b for b in S.BAUDS if b <= slot])})
     car = list(fixed)
     more = (S.gen_carriers(rng, cr, case['nch']) if cr else []) + S.gen_carriers(rng, WIDE, max(2, case['nch'] // 2))
+    if isinstance(case['net'], dict) and 'auto' in case['net']:
+        # channels in the difference of the two L-band sets (186.6-187.4 THz) and around its edge
+        more = S.gen_carriers(rng, [(186_600_000_000_000, 187_500_000_000_000)], rng.choice([2, 4])) + more
     for c in more:
         if all(abs(c['f'] - o['f']) * 2 >= c['slot'] + o['slot'] for o in car):
             car.append({'f': c['f'], 'slot': c['slot'], 'baud': c['baud']})
@@ -600,7 +617,7 @@ def check_propagations(res, drv, calls, launched, sid, what):
             [(int(f), int(s)) for f, s in zip(seg[0].before['freq'], seg[0].before['slot'])]
         slot0 = first[0][1] if first else None
         lch = launched(seg)          # [(f, slot)] launched for this propagation
-        keep = [c for c in lch if all(any(_inside(c[0], c[1], b) for b in ab[1]) for ab in amps)]
+        keep = [c for c in lch if all(any(_inside(c[0], c[1], b) for b in ab[2]) for ab in amps)]
         where = f'{what}, propagation {si_ + 1} of {len(segs)} with the same request ({seg[0].uid} -> {seg[-1].uid})'
         # a path without amplifier: the statement removes nothing (the code filters on the SI band: correspondence below)
         if amps and first != sorted(keep):
@@ -866,7 +883,9 @@ def run_path(case, drv):
     # independent expectation: kept iff every amplifier of the path has a band holding the slot
     amps = [ab for ab in abands if ab[0] != 'other']
     if amps:
-        keep = [c for c in car if all(any(_inside(c['f'], c['slot'], b) for b in ab[1]) for ab in amps)]
+        # what every amplifier of the path can really carry: the bands of its (per-band) amplifiers, not what the element
+        # declares in params.bands
+        keep = [c for c in car if all(any(_inside(c['f'], c['slot'], b) for b in ab[2]) for ab in amps)]
     else:
         # no amplifier on the path: the statement removes nothing; that the code then filters on the SI band is code
         # behaviour under correspondence (model `commonRange` default band) - the monitor takes what entered the first element
@@ -930,7 +949,7 @@ def run_path(case, drv):
                       'path_channels_kept': len(keep), 'path_multiband_amps': kinds.count('multiband'),
                       'path_single_amps': kinds.count('edfa'), 'path_mixed': int('multiband' in kinds and 'edfa' in kinds),
                       'path_common_bands_' + str(len(cr)): 1, 'path_error_' + str(impl.get('err')): 1,
-                      f'net_{case["net"] if isinstance(case["net"], str) else "chain"}': 1,
+                      f'net_{case["net"] if isinstance(case["net"], str) else ("auto_multiband" if "auto" in case["net"] else "chain")}': 1,
                       'path_uniform_grid': int(bool(uniform))})
     return res
 
